@@ -5,6 +5,7 @@ mod explore;
 mod kernel;
 mod osim;
 mod props;
+mod trace;
 mod wire;
 
 use explore::RunResult;
@@ -64,10 +65,14 @@ fn main() {
         usage();
     }
     kernel::install_panic_hook();
+    if std::env::var("VERIF_NO_TRACE").is_err() {
+        trace::install();
+    }
 
     let code = if let Some(file) = replay {
         let (_kind, name, path) = explore::read_replay(&file);
         match id.as_str() {
+            "C03" => print_replay(&id, props::c03::replay(&name, &path)),
             "C04" => print_replay(&id, props::c04::replay(&name, &path)),
             "C05" => print_replay(&id, props::c05::replay(&name, &path)),
             "C12" => print_replay(&id, props::c12::replay(&name, &path)),
@@ -78,6 +83,7 @@ fn main() {
         }
     } else {
         match id.as_str() {
+            "C03" => props::c03::check(&tier),
             "C04" => props::c04::check(&tier),
             "C05" => props::c05::check(&tier),
             "C12" => props::c12::check(&tier),
